@@ -197,16 +197,30 @@ type Decomp struct {
 }
 
 type decomposer struct {
-	fresh func(prefix string, s Sort) *Term
-	caps  map[string]*Term
-	vars  []*Term
-	err   error
+	fresh  func(prefix string, s Sort) *Term
+	caps   map[string]*Term
+	vars   []*Term
+	err    error
+	wanted map[string]bool // nil: every named capture
+}
+
+// hasWanted reports whether t contains a capture the decomposition must expose.
+func (d *decomposer) hasWanted(t *syntax.Regexp) bool {
+	if t.Op == syntax.OpCapture && t.Name != "" && (d.wanted == nil || d.wanted[t.Name]) {
+		return true
+	}
+	for _, s := range t.Sub {
+		if d.hasWanted(s) {
+			return true
+		}
+	}
+	return false
 }
 
 // decompose returns a constraint under which `subject` is matched by t, with
 // named captures bound in d.caps. present=false callers bind captures to "".
 func (d *decomposer) decompose(t *syntax.Regexp, subject *Term) *Term {
-	if !hasNamedCapture(t) {
+	if !d.hasWanted(t) {
 		smt, err := reLang(t)
 		if err != nil {
 			d.err = err
@@ -226,7 +240,7 @@ func (d *decomposer) decompose(t *syntax.Regexp, subject *Term) *Term {
 	switch t.Op {
 	case syntax.OpCapture:
 		c := d.decompose(t.Sub[0], subject)
-		if t.Name != "" {
+		if t.Name != "" && (d.wanted == nil || d.wanted[t.Name]) {
 			if _, dup := d.caps[t.Name]; dup {
 				d.err = fmt.Errorf("duplicate capture name %q", t.Name)
 			}
@@ -261,7 +275,7 @@ func (d *decomposer) decompose(t *syntax.Regexp, subject *Term) *Term {
 		}
 		var rs []altRes
 		for _, sub := range t.Sub {
-			sd := &decomposer{fresh: d.fresh, caps: map[string]*Term{}}
+			sd := &decomposer{fresh: d.fresh, caps: map[string]*Term{}, wanted: d.wanted}
 			c := sd.decompose(sub, subject)
 			if sd.err != nil {
 				d.err = sd.err
@@ -295,7 +309,7 @@ func (d *decomposer) decompose(t *syntax.Regexp, subject *Term) *Term {
 		}
 		return Or(alts...)
 	case syntax.OpQuest:
-		sd := &decomposer{fresh: d.fresh, caps: map[string]*Term{}}
+		sd := &decomposer{fresh: d.fresh, caps: map[string]*Term{}, wanted: d.wanted}
 		c := sd.decompose(t.Sub[0], subject)
 		if sd.err != nil {
 			d.err = sd.err
@@ -321,6 +335,12 @@ func (d *decomposer) decompose(t *syntax.Regexp, subject *Term) *Term {
 // DecomposeCaptures builds the decomposition of `subject` for a fully
 // anchored pattern (\A ... \z). names lists the named groups.
 func DecomposeCaptures(pattern string, subject *Term, fresh func(string, Sort) *Term) (*Decomp, error) {
+	return DecomposeWanted(pattern, subject, fresh, nil)
+}
+
+// DecomposeWanted exposes only the named captures in wanted (nil = all); the
+// rest of the expression stays a plain regular-language constraint.
+func DecomposeWanted(pattern string, subject *Term, fresh func(string, Sort) *Term, wanted map[string]bool) (*Decomp, error) {
 	tree, err := syntax.Parse(pattern, syntax.Perl)
 	if err != nil {
 		return nil, err
@@ -329,10 +349,15 @@ func DecomposeCaptures(pattern string, subject *Term, fresh func(string, Sort) *
 	if !begin || !end {
 		return nil, fmt.Errorf("captures on unanchored regex %q unsupported", pattern)
 	}
-	d := &decomposer{fresh: fresh, caps: map[string]*Term{}}
+	d := &decomposer{fresh: fresh, caps: map[string]*Term{}, wanted: wanted}
 	c := d.decompose(inner, subject)
 	if d.err != nil {
 		return nil, d.err
+	}
+	for n := range wanted {
+		if _, ok := d.caps[n]; !ok {
+			return nil, fmt.Errorf("capture %q not found in %q", n, pattern)
+		}
 	}
 	return &Decomp{Constraint: c, Captures: d.caps, Fresh: d.vars}, nil
 }
